@@ -187,7 +187,7 @@ pub fn handshake_variant(k: u64) -> (Vec<u8>, &'static str) {
     match k % N_HANDSHAKE_VARIANTS {
         0 => (default_handshake(), "HandshakeResponse41, usual capabilities"),
         1 => (frame(1, &handshake320(0x0005, 2048, b"u", b"")).0, "HandshakeResponse320 (pre-4.1 layout), max_packet_size 2048"),
-        2 => (frame(1, &handshake41(CAP_PROTOCOL_41, 3000, 0x21, b"u", &[0])).0, "HandshakeResponse41 with CLIENT_PROTOCOL_41 only, max_packet_size 3000"),
+        2 => (frame(1, &handshake41(CAP_PROTOCOL_41, 3000, 0x08, b"u", &[0])).0, "HandshakeResponse41 with CLIENT_PROTOCOL_41 only, max_packet_size 3000, collation latin1_swedish_ci"),
         3 => {
             // what libmysqlclient sends: db, plugin name and connection attributes present
             let caps = 0x0001 | 0x0002 | 0x0004 | CAP_CONNECT_WITH_DB | 0x0080 | 0x0100 | CAP_PROTOCOL_41 | 0x0400 | 0x1000 | 0x2000 | CAP_SECURE_CONNECTION | 0x0001_0000 | 0x0002_0000 | 0x0004_0000 | CAP_PLUGIN_AUTH | 0x0010_0000 | 0x0020_0000;
